@@ -111,6 +111,41 @@ pub fn plan_attacker(w: &World, knobs: &Knobs, actor: &mut Actor, l: &Ledger) ->
             }
         }
     }
+    // a position with a bound on the very first tick of a tick array, funded while naming the PRECEDING array in that
+    // slot (the tick is one past its last slot); on a correct program the deposit is refused (tick not found)
+    if rng.chance(1, 8) {
+        if let Some(pool) = l.data(&p.whirlpool).and_then(decode::pool) {
+            let sp = pi.keys.tick_spacing as i32;
+            let width = 88 * sp;
+            let edge = ta_start(pool.tick_current_index, pi.keys.tick_spacing) + (rng.below(3) as i32 - 1) * width;
+            let upper_side = rng.chance(1, 2);
+            let (lo, hi) = if upper_side { (edge - (1 + rng.below(120) as i32) * sp, edge) } else { (edge, edge + (1 + rng.below(120) as i32) * sp) };
+            if lo > crate::gen::min_usable(pi.keys.tick_spacing) && hi < crate::gen::max_usable(pi.keys.tick_spacing) && edge - width >= ta_start(crate::gen::min_usable(pi.keys.tick_spacing), pi.keys.tick_spacing) {
+                let mint = new_key(rng);
+                let (open_ix, npk) = ix::open_position(&pi.keys.whirlpool, &actor.wallet, &actor.wallet, &mint, lo, hi);
+                let fake = decode::Position { lower: lo, upper: hi, ..Default::default() };
+                let mut nla = liq_accounts(actor, &pi.keys, &npk, &fake);
+                let prev = ix::pda_tick_array(&pi.keys.whirlpool, edge - width);
+                if upper_side {
+                    nla.ta_upper = prev;
+                } else {
+                    nla.ta_lower = prev;
+                }
+                let mut ixs: Vec<Ix> = Vec::new();
+                for s in [edge - width, ta_start(lo, pi.keys.tick_spacing), ta_start(hi, pi.keys.tick_spacing)] {
+                    let k = ix::pda_tick_array(&pi.keys.whirlpool, s);
+                    if !l.exists(&k) && !ixs.iter().any(|i: &Ix| i.accounts.iter().any(|m| m.pubkey == k)) {
+                        ixs.push(init_array_ix(knobs, rng, &pi.keys.whirlpool, &actor.wallet, s));
+                    }
+                }
+                ixs.push(open_ix);
+                ixs.push(if v1_ok && rng.chance(1, 2) { ix::increase_liquidity(&nla, 1_000 + rng.log_u128(30), u64::MAX, u64::MAX) } else { ix::increase_liquidity_v2(&nla, 1_000 + rng.log_u128(30), u64::MAX, u64::MAX) });
+                flow.push((Tx { ixs }, "attacker: bound on the first tick of an array, preceding array named".into()));
+                actor.rng = rng.clone();
+                return flow;
+            }
+        }
+    }
     // rewards: collect index i out of the vault that is registered for index j (same mint)
     if rng.chance(1, 4) {
         if let Some(pool) = l.data(&p.whirlpool).and_then(decode::pool) {
